@@ -201,10 +201,34 @@ func MatchNodes(a, b *Pkg, keyMode string) (pi, pinv []uint64, unmatchedA, unmat
 
 // AllOrders returns every ordering of the top-level declarations of a single-file package (at most max orders;
 // the identity order is skipped).
-func (p *Pkg) AllOrders(max int) [][]SrcFile {
+func (p *Pkg) AllOrders(max int, r *hx.Rand) [][]SrcFile {
 	headers, chunks, tails := p.Chunks("text")
 	if len(p.Sources) != 1 {
-		return nil
+		// several files: both/all rotations of the file order, then random permutations within and across files
+		var out [][]SrcFile
+		for k := 1; k < len(p.Sources); k++ {
+			rot := append(append([]SrcFile(nil), p.Sources[k:]...), p.Sources[:k]...)
+			out = append(out, rot)
+		}
+		for len(out) < max && len(out) < 40 {
+			out = append(out, p.Permute(r, true))
+		}
+		return out
+	}
+	fact := 1
+	for i := 2; i <= len(chunks[0]); i++ {
+		fact *= i
+		if fact > 100000 {
+			break
+		}
+	}
+	if fact-1 > max {
+		// too many orders: a random sample
+		var out [][]SrcFile
+		for len(out) < max && len(out) < 40 {
+			out = append(out, p.Permute(r, false))
+		}
+		return out
 	}
 	n := len(chunks[0])
 	texts := make([]string, n)
